@@ -9,9 +9,16 @@
 (* Code shape: dedup by number -> filterBlacklist -> addWhitelist -> sort. *)
 (* Reference (the statement): exactly (found \ blacklist) \cup (allow \cap *)
 (* ArchNames), sorted, duplicate free - for disjoint flag sets.            *)
+(*                                                                         *)
+(* Where it goes: standard output, or the file named by -out - a new file, *)
+(* or one that exists already and holds an earlier (possibly longer)       *)
+(* profile.  File contents are sequences of lines.                         *)
+(* Dev "NoTruncate" (a seeded change, not in the tree): the -out file is   *)
+(* opened without truncation, so the tail of a longer earlier profile      *)
+(* stays behind the new one.                                               *)
 (***************************************************************************)
 EXTENDS Integers, Sequences, FiniteSets, TLC, SequencesExt
-CONSTANTS Universe, ArchNames, MaxFound
+CONSTANTS Universe, ArchNames, MaxFound, Dev
 
 ToSetS(s) == {s[i] : i \in 1..Len(s)}
 \* main(): dedup by number (names and numbers are 1:1 within a table)
@@ -29,6 +36,11 @@ Disjoint(c) == c.bl \cap c.al = {}
 AlgebraOK == \A c \in Cases : Disjoint(c) =>
                 /\ ProfileNames(c.found, c.bl, c.al) = Reference(c.found, c.bl, c.al)
                 /\ ProfileNames(c.found, c.bl, c.al) \subseteq ArchNames
+\* the destination: what the file named by -out holds afterwards, given what it held before (<<>> = it did not exist)
+Dests == {"stdout", "newfile", "existing"}
+WriteOut(prior, new) == IF "NoTruncate" \in Dev /\ Len(prior) > Len(new) THEN new \o SubSeq(prior, Len(new) + 1, Len(prior)) ELSE new
+OutputIsTheProfile == \A n \in 0..3, k \in 0..5 :
+                        LET new == [i \in 1..n |-> "new"] prior == [i \in 1..k |-> "old"] IN WriteOut(prior, new) = new
 \* the emitted policy: allow exactly the names, errno for everything else (Compile.tla's Decide on one allow group)
 Allows(names, n) == IF n \in names THEN "allow" ELSE "errno|EPERM"
 =============================================================================
